@@ -1,0 +1,38 @@
+//go:build verif
+
+package elasticsearch
+
+// Verification hooks (build tag `verif`): lets the external harness install a scripted bulk service before Setup.
+
+import (
+	"context"
+
+	"github.com/olivere/elastic/v7"
+)
+
+// VerifBulkService is the part of the bulk service the index client uses.
+type VerifBulkService interface {
+	Add(requests ...elastic.BulkableRequest)
+	Do(ctx context.Context) (*elastic.BulkResponse, error)
+}
+
+type verifBulkAdapter struct{ s VerifBulkService }
+
+func (a verifBulkAdapter) Timeout(timeout string) *elastic.BulkService { return nil }
+func (a verifBulkAdapter) Add(requests ...elastic.BulkableRequest) *elastic.BulkService {
+	a.s.Add(requests...)
+	return nil
+}
+func (a verifBulkAdapter) NumberOfActions() int { return 0 }
+func (a verifBulkAdapter) Do(ctx context.Context) (*elastic.BulkResponse, error) {
+	return a.s.Do(ctx)
+}
+
+type verifFactory struct{ f func() VerifBulkService }
+
+func (v verifFactory) BulkService() bulkService { return verifBulkAdapter{s: v.f()} }
+
+// VerifSetBulkServiceFactory installs a scripted bulk-service factory; call before Setup.
+func (i *Elasticsearch) VerifSetBulkServiceFactory(f func() VerifBulkService) {
+	i.serviceFactory = verifFactory{f: f}
+}
